@@ -996,7 +996,7 @@ func TestVerifC08Large(t *testing.T) {
 		cfg := vtraffic.LargeConfig(rapid.IntRange(150000, 300000).Draw(rt, "packets"))
 		cfg.AvoidSeqWrapDisorder = open[vFindingSeqWrap]
 		cfg.AvoidCutAfterSecondFin = open[vFindingSnapComplete]
-		s := vtraffic.Gen(cfg).Draw(rt, "traffic")
+		s := vtraffic.GenFromSeed(cfg).Draw(rt, "traffic")
 		c.Count("excluded_known", s.Steered+s.SteeredCuts)
 		plan := &vPlan{Interval: 100_000}
 		for i := range s.Captures {
